@@ -6,7 +6,10 @@ C16 — property theorems (curve points, lengths and closest-parameter queries a
   T_C16_additive_polyline  a polyline length is additive over a split at any of its points (any distance oracle)
   T_C16_additive           DiscreteCurve.get_length(a, c) = get_length(a, b) + get_length(b, c) for a ≤ b ≤ c
   T_C16_order              … and does not depend on the order of the two parameters (symmetric distance)
-  T_C16_linear_length      InterpolatedCurveBase.get_length(a, b) = |b − a| · T for every curve whose distances
+  T_C16_length_general     InterpolatedCurveBase.get_length(a, b) = S(hi) − S(lo) for any knot parameters (chord-length or evenly
+                           spaced) and any curve whose distances inside a knot interval are differences of a length function S
+  T_C16_additive_interpolated  hence additive over every split
+  T_C16_linear_length      chord-length case S t = t·T: get_length(a, b) = |b − a| · T for every curve whose distances
                            inside a knot interval are proportional to the parameter difference (hence additive, symmetric,
                            equal to the polyline through the break points; T = total length for chord-length parameters)
   T_C16_segment_metric     the linear interpolant with chord-length parameters is such a curve (one knot interval)
@@ -118,15 +121,17 @@ theorem T_C16_order (d : α → α → Rat) (hsym : ∀ x y, d x y = d y x) (pts
 
 /-! ### interpolated curves -/
 
-/-- `get_length` of an interpolated curve in closed form.  `hlin`: inside one knot interval (no knot strictly between
-    `x` and `z`) the distance of two curve points is `(z − x)·T` — true for the linear interpolant with chord-length
-    parameters (`T_C16_segment_metric`, `T` = length of the whole polyline), false for a spline.
-    Consequences: additive over any split, independent of the parameter order, `get_length(0, 1) = T`. -/
-theorem T_C16_linear_length (d : α → α → Rat) (f : Rat → α) (ts : List Rat) (T : Rat)
+/-- `get_length` of an interpolated curve in closed form, for **any** knot parameters (chord-length `equalize=True` or evenly
+    spaced `equalize=False`).  `S` is a length-along-the-curve function; `hlin`: inside one knot interval (no knot strictly
+    between `x` and `z`) the distance of two curve points is `S z − S x` — true for every linear interpolant (on the knot
+    interval `i` with `S t = cum_i + (t − t_i)·T_i`, `T_i = d_i / (t_{i+1} − t_i)`, by `T_C16_segment_metric`), false for a
+    spline.  Then the length between two parameters is `S hi − S lo`: the polyline between them, additive over any split,
+    independent of the order.  It is `|b − a|·total` only when `S` is linear, i.e. for chord-length parameters. -/
+theorem T_C16_length_general (d : α → α → Rat) (f : Rat → α) (ts : List Rat) (S : Rat → Rat)
     (hsorted : ts.Pairwise (· < ·))
-    (hlin : ∀ x z, 0 ≤ x → x ≤ z → z ≤ 1 → (∀ t ∈ ts, ¬ (x < t ∧ t < z)) → d (f x) (f z) = (z - x) * T)
+    (hlin : ∀ x z, 0 ≤ x → x ≤ z → z ≤ 1 → (∀ t ∈ ts, ¬ (x < t ∧ t < z)) → d (f x) (f z) = S z - S x)
     (a b : Rat) (ha : 0 ≤ a ∧ a ≤ 1) (hb : 0 ≤ b ∧ b ≤ 1) :
-    getLengthI d f ts a b = some ((max a b - min a b) * T) := by
+    getLengthI d f ts a b = some (S (max a b) - S (min a b)) := by
   unfold getLengthI
   rw [if_pos ⟨ha.1, ha.2, hb.1, hb.2⟩]
   congr 1
@@ -166,7 +171,7 @@ theorem T_C16_linear_length (d : α → α → Rat) (f : Rat → α) (ts : List 
         simp only [List.mem_singleton] at hu
         subst hu
         exact ((hFmem t).mp ht).2.2
-    apply polyLenD_telescope d f T (lo :: F ++ [hi]) lo hi (by simp)
+    apply polyLenD_telescope d f S (lo :: F ++ [hi]) lo hi (by simp)
       (by rw [show lo :: F ++ [hi] = (lo :: F) ++ [hi] from rfl, List.getLast?_append]; simp)
     intro u v huv
     have hu : u ∈ lo :: F ++ [hi] := (List.of_mem_zip huv).1
@@ -200,6 +205,42 @@ theorem T_C16_linear_length (d : α → α → Rat) (f : Rat → α) (ts : List 
       lt_of_lt_of_le hbetween.2 (hbounds v hv').2⟩
     have htL : t ∈ lo :: F ++ [hi] := by simp [htF]
     exact consec_no_between _ hsortedL u v huv t htL hbetween
+
+/-- non-vacuity with **evenly spaced** knots over uneven points (`equalize=False`): on the real line the points 0, 1, 4 at the
+    parameters 0, 1/2, 1; `S` is the interpolant itself; the length between 1/2 and 1/8 is 3/4, not `|Δt|·total` = 3/2 -/
+example : knotParamsEven 3 = [0, 1 / 2, 1] ∧
+    getLengthI (fun (x y : Rat) => if x ≤ y then y - x else x - y)
+      (fun t => if t ≤ 1 / 2 then 2 * t else 1 + 6 * (t - 1 / 2)) [0, 1 / 2, 1] (1 / 2) (1 / 8) = some (3 / 4) ∧
+    ((1 / 2 - 1 / 8 : Rat) * 4 ≠ 3 / 4) := by
+  refine ⟨by decide +kernel, by decide +kernel, by norm_num⟩
+
+/-- additivity over a split for every such curve (in particular every linear interpolant, whatever its knot parameters) -/
+theorem T_C16_additive_interpolated (d : α → α → Rat) (f : Rat → α) (ts : List Rat) (S : Rat → Rat)
+    (hsorted : ts.Pairwise (· < ·))
+    (hlin : ∀ x z, 0 ≤ x → x ≤ z → z ≤ 1 → (∀ t ∈ ts, ¬ (x < t ∧ t < z)) → d (f x) (f z) = S z - S x)
+    (a b c : Rat) (ha : 0 ≤ a) (hab : a ≤ b) (hbc : b ≤ c) (hc : c ≤ 1) :
+    ∃ l1 l2, getLengthI d f ts a b = some l1 ∧ getLengthI d f ts b c = some l2 ∧
+      getLengthI d f ts a c = some (l1 + l2) := by
+  have hb0 : 0 ≤ b := le_trans ha hab
+  have hb1 : b ≤ 1 := le_trans hbc hc
+  refine ⟨S b - S a, S c - S b, ?_, ?_, ?_⟩
+  · have := T_C16_length_general d f ts S hsorted hlin a b ⟨ha, le_trans hab hb1⟩ ⟨hb0, hb1⟩
+    rwa [max_eq_right hab, min_eq_left hab] at this
+  · have := T_C16_length_general d f ts S hsorted hlin b c ⟨hb0, hb1⟩ ⟨le_trans hb0 hbc, hc⟩
+    rwa [max_eq_right hbc, min_eq_left hbc] at this
+  · have := T_C16_length_general d f ts S hsorted hlin a c ⟨ha, le_trans (le_trans hab hbc) hc⟩ ⟨le_trans hb0 hbc, hc⟩
+    rw [max_eq_right (le_trans hab hbc), min_eq_left (le_trans hab hbc)] at this
+    rw [this]; congr 1; ring
+
+/-- chord-length parameters (`equalize=True`): `S t = t·T` -/
+theorem T_C16_linear_length (d : α → α → Rat) (f : Rat → α) (ts : List Rat) (T : Rat)
+    (hsorted : ts.Pairwise (· < ·))
+    (hlin : ∀ x z, 0 ≤ x → x ≤ z → z ≤ 1 → (∀ t ∈ ts, ¬ (x < t ∧ t < z)) → d (f x) (f z) = (z - x) * T)
+    (a b : Rat) (ha : 0 ≤ a ∧ a ≤ 1) (hb : 0 ≤ b ∧ b ≤ 1) :
+    getLengthI d f ts a b = some ((max a b - min a b) * T) := by
+  have := T_C16_length_general d f ts (fun t => t * T) hsorted
+    (fun x z h0 hxz h1 hno => by rw [hlin x z h0 hxz h1 hno]; ring) a b ha hb
+  rw [this]; congr 1; ring
 
 /-- non-vacuity: on the real line with `f = id·4` distances are proportional everywhere; three knots -/
 example : getLengthI (fun (x y : Rat) => if x ≤ y then y - x else x - y) (fun t => 4 * t) [0, 1 / 4, 1] (3 / 4) (1 / 8)
